@@ -136,30 +136,38 @@ From LY Require Import JsonText JsonDoc JsonDocP.
    (a reverse solidus escapes the next character) and read by StdText.std_json_string (escapes, surrogate pairs, strict
    UTF-8). It shares nothing with the libyang models. [json_tree sch t jk f] is the RFC 7951 reading of the forest.
 
-   JSON: the rendering of the RFC 7951 value of a forest is valid RFC 8259 JSON and an independent reader recovers
-   exactly that value: member structure and order, module qualifiers exactly where the module changes, int64 / uint64 /
-   decimal64 / strings as strings, other integers and booleans as literals, empty as [null], metadata objects per RFC
-   7952, every string as the tree holds it. Data hypothesis: strings are valid UTF-8 without NUL ([utf8_nonul], the
-   hypothesis of C12_json_string_std).
-   PARTIAL in the same sense as C01_json_doc_roundtrip_partial: about [json_doc]; that the transcription of
-   printer_json.c prints exactly [json_doc] on canonical forests is checked by the correspondence run (field D), not
-   proved. *)
-Theorem C12_json_doc_std_partial :
+   JSON: what the transcription of printer_json.c (WITH its state: level, level_printed, open arrays, first_leaflist)
+   writes for a forest with every node selected is valid RFC 8259 JSON and an independent reader recovers exactly the
+   RFC 7951 value of the forest: member structure and order, module qualifiers exactly where the module changes, int64 /
+   uint64 / decimal64 / strings as strings, other integers and booleans as literals, empty as [null], metadata objects
+   per RFC 7952, every string as the tree holds it. Data hypothesis: strings are valid UTF-8 without NUL ([utf8_nonul],
+   the hypothesis of C12_json_string_std). *)
+Theorem C12_json_doc_std :
+  forall sch t jk f,
+    tabs_okb sch t = true -> parents_ltb sch = true -> Canon sch f -> Forall (JDocN sch t jk utf8_nonul) f ->
+    std_json_value (json_print_all sch t jk f) = Some (json_tree sch t jk f).
+Proof. exact json_print_std_proof. Qed.
+Print Assumptions C12_json_doc_std.
+
+Theorem C12_json_doc_std_checked :
+  forall sch t jk f,
+    tabs_okb sch t = true -> parents_ltb sch = true -> canonb sch None f = true -> forallb (jdocb sch t jk nonulb) f = true ->
+    std_json_value (json_print_all sch t jk f) = Some (json_tree sch t jk f).
+Proof.
+  intros sch t jk f Ht Hp HC HD. apply json_print_std_proof; [exact Ht|exact Hp|apply canonb_spec, HC|].
+  rewrite forallb_forall in HD. apply Forall_forall. intros x Hx. apply (jdocb_spec sch t jk nonulb utf8_nonul x nonulb_spec), HD, Hx.
+Qed.
+Print Assumptions C12_json_doc_std_checked.
+
+(* the RFC 7951 rendering of ANY forest in canonical position (e.g. the selected part of a forest) is valid JSON meaning
+   that forest; for selections other than "every node" the link to the printer is checked by the correspondence run
+   (explicit mode) resp. refuted (trim mode, below) *)
+Theorem C12_json_rendering_std :
   forall sch t jk f,
     tabs_okb sch t = true -> Canon sch f -> Forall (JDocN sch t jk utf8_nonul) f ->
     std_json_value (json_doc sch t jk f) = Some (json_tree sch t jk f).
 Proof. exact json_doc_std_proof. Qed.
-Print Assumptions C12_json_doc_std_partial.
-
-Theorem C12_json_doc_std_checked_partial :
-  forall sch t jk f,
-    tabs_okb sch t = true -> canonb sch None f = true -> forallb (jdocb sch t jk nonulb) f = true ->
-    std_json_value (json_doc sch t jk f) = Some (json_tree sch t jk f).
-Proof.
-  intros sch t jk f Ht HC HD. apply json_doc_std_proof; [exact Ht|apply canonb_spec, HC|].
-  rewrite forallb_forall in HD. apply Forall_forall. intros x Hx. apply (jdocb_spec sch t jk nonulb utf8_nonul x nonulb_spec), HD, Hx.
-Qed.
-Print Assumptions C12_json_doc_std_checked_partial.
+Print Assumptions C12_json_rendering_std.
 
 (* in trim mode the printer's state machine does NOT print the rendering of the selected part, and what it prints is
    not JSON: FINDING json-trim-leaflist-meta. Witness: leaf-list ll (defaults -5, -7) with the instances -9 (carrying
@@ -205,7 +213,7 @@ Definition exj_forest : forest :=
 
 Example C12_json_doc_std_example :
   tabs_okb exj_sch exj_tabs = true /\ canonb exj_sch None exj_forest = true /\
-  forallb (jdocb exj_sch exj_tabs exj_kinds nonulb) exj_forest = true /\
+  forallb (jdocb exj_sch exj_tabs exj_kinds nonulb) exj_forest = true /\ parents_ltb exj_sch = true /\
   json_print_all exj_sch exj_tabs exj_kinds exj_forest = json_doc exj_sch exj_tabs exj_kinds exj_forest /\
   std_json_value (json_print_all exj_sch exj_tabs exj_kinds exj_forest) = Some (json_tree exj_sch exj_tabs exj_kinds exj_forest).
 Proof. vm_compute. repeat split. Qed.
